@@ -180,6 +180,14 @@ def run(tier):
         "top-level": ["interpreter::Interpreter::run_vm_to_completion", "interpreter::Interpreter::process_vm_result"],
         "nested-run": ["interpreter::Interpreter::run_bytecode_with_this", "interpreter::Interpreter::call_bytecode_function_with_new_target"],
     }
+    # a role member whose match on VmResult was extracted into a helper of its own plays the role through that helper
+    members = {p for fns in ROLES.values() for p in fns}
+    for p in sorted(members):
+        if p not in consumers and p in fx.fns:
+            hs = sorted({t[1].get("d") for g in fx.body_group(fx.fns[p]) for _, t in g.calls() if t[1].get("d") in consumers and t[1].get("d") not in members})
+            if len(hs) == 1:
+                consumers[p] = consumers[hs[0]]
+                ck.note("%s consumes VmResult through its helper %s" % (p.split("::")[-1], hs[0].split("::")[-1]))
     for role, fns in ROLES.items():
         present = [p for p in fns if p in consumers]
         # a member that lost its own match because it now hands the result to another member still plays the role
